@@ -458,18 +458,18 @@ func main() {
 	runner.Main(runner.Check{
 		ID:    "C08",
 		Level: "model_checking",
-		Rule: "breadth-first search over all histories (depth <= 4 quick / 5 thorough) of {Prepare(k,parent[,target]), View, Commit, Mounts, Remove, Stat, Update(+label), Cleanup, Walk, Close} over keys {k1,k2}, names/targets {T1,T2}, parents {\"\",T1,T2} on the real snapshotter (real bolt metadata, real directories), sync and AsynchronousRemove; every backend Mount/Check/Unmount answer ok|fail with <= 1 (quick) / 2 (thorough) failures per history; states deduplicated on (metadata without timestamps, snapshots/ listing, backend mount table, failures used) with ids abstracted; invariants (a)-(e) of the statement evaluated on every transition. non-trivial = executed transition that made at least one backend call or changed the canonical state",
+		Rule:  "breadth-first search over all histories (depth <= 4 quick / 5 thorough) of {Prepare(k,parent[,target]), View, Commit, Mounts, Remove, Stat, Update(+label), Cleanup, Walk, Close} over keys {k1,k2}, names/targets {T1,T2}, parents {\"\",T1,T2} on the real snapshotter (real bolt metadata, real directories), sync and AsynchronousRemove; every backend Mount/Check/Unmount answer ok|fail with <= 1 (quick) / 2 (thorough) failures per history; states deduplicated on (metadata without timestamps, snapshots/ listing, backend mount table, failures used) with ids abstracted; invariants (a)-(e) of the statement evaluated on every transition. non-trivial = executed transition that made at least one backend call or changed the canonical state",
 		Assumptions: []string{
 			"the backend is the recording fake recfs: a failed Mount leaves nothing mounted, a failed Unmount leaves the mount live, Check/Unmount of a path that is not mounted fail by themselves, Mount on a missing directory fails",
 			"rmdir of a busy mountpoint cannot be reproduced by the fake: a directory removed after a *failed* Unmount is not counted as 'deleted before unmount'",
 			"metadata is read independently of snapshot.go through containerd's storage package on a copy of metadata.db",
 			"ids are abstracted in the canonical state (behaviour is symmetric in ids); the observation vector (Mounts of every key) is compared between histories reaching the same canonical state",
 			"every step conceptually runs on a fresh replay of the history; the replayed world is reused for the next step only when the step left the root directory tree byte-identical (incl. metadata.db), the mount table identical, the snapshotter not closed and did not panic (SNAPX_NO_REUSE=1 replays always)",
-			"sequential callers only (concurrent callers are not part of this check)",
+			"concurrent callers (part conc): pairs of calls racing under the cooperative scheduler; the bolt write transaction is made scheduler-visible by a seam (verifTx), read transactions stay concurrent, os namespace operations and backend calls are scheduling points",
 		},
 		QuickBudget: budget(220 * time.Second), ThoroughBudget: budget(28 * time.Minute),
 		Parts: func(tier string) []runner.Part {
-			return []runner.Part{part(false, tier), part(true, tier)}
+			return []runner.Part{part(false, tier), part(true, tier), concPart(tier)}
 		},
 	})
 }
